@@ -32,13 +32,44 @@ theorem C01_premaster_degenerate (G : Group) (A v u b : Nat) (hb : 0 < b) (hA : 
 /-- **Gate, every history.**  For every request sequence `rs` (any order, omissions, repetitions,
     crafted values), from any state in which the verifier has no recorded success: every O1 is the answer
     to a good M3 (the demonstration happens in that very request), and every O2 / O3 happens at a point
-    where, in the exchange opened by the latest served M1, a good M3 had been received
-    (`e.demo`, a ghost computed from the history independently of the code's own record). -/
+    where, in the exchange opened by the latest served M1, a good M3 had been received and no accepted
+    M5 has consumed that exchange since (`e.demo`, a ghost computed from the history independently of the
+    code's own record).  `C01_gate_events` is the same over histories that also contain bystander activity
+    and the owner unpairing the accessory. -/
 theorem C01_gate (cfg : Cfg) (ps0 : PS) (h0 : verifiedNow ps0 = false) (rs : List Req) :
     ∀ e ∈ trace cfg ps0 false rs,
       (isO1 e.out = true → goodM3 cfg e.pre e.req = true) ∧
       ((isO2 e.out = true ∨ e.post.paired ≠ e.pre.paired) → e.demo = true) :=
   gate_trace cfg rs ps0 false (by simp [h0])
+
+/-- **Gate, every history of events** — pair-setup requests on any connection, bystander activity, and
+    the owner unpairing the accessory (last admin removed) at any point.  The ghost `e.demo` is: a good M3
+    was received since the latest served M1 AND no accepted M5 has consumed that exchange since
+    (single use).  Every O2 / O3 needs it; every O1 answers a good M3. -/
+theorem C01_gate_events (cfg : Cfg) (ps0 : PS) (h0 : verifiedNow ps0 = false) (evs : List Ev) :
+    ∀ e ∈ traceEv cfg ps0 false evs,
+      (isO1 e.out = true → goodM3 cfg e.pre e.req = true) ∧
+      ((isO2 e.out = true ∨ e.post.paired ≠ e.pre.paired) → e.demo = true) :=
+  gate_traceEv cfg evs ps0 false (by simp [h0])
+
+/-- **Before the single-use repair** (handler with the C08 + C01 repairs only, `stepKeep`: the verified
+    verifier stayed on the driver after a pairing): honest M1, M3, M5; the owner removes the pairing; the
+    SAME M5 bytes sent again — by anybody, no M1, no M3 — are accepted: M6 is issued and the removed
+    controller is admin again.  Hence `C01_gate_events` is false for that handler. -/
+theorem C01_replayed_m5_legacy :
+    let cfg : Cfg := { G := { N := 23, g := 5, nLen := 8 }, c := toyCrypto }
+    let ps0 : PS := { pincode := [2], mac := [9], ltpk := [7], paired := [], verifier := none }
+    let srv := Srp.mk cfg.c.H cfg.G SRP_USER ps0.pincode [3] 6
+    let cl := client cfg.c.H cfg.G SRP_USER ps0.pincode [3] srv.Bb 4
+    let csig := [8] ++ (cfg.c.hkdf cl.K P4_SALT P4_INFO ++ [1] ++ [8])
+    let m5 : Req := ⟨ctrlM5 cfg.c cl.K (ctrlSub [1] [8] csig), [], []⟩
+    let r1 := stepKeep cfg ps0 ⟨ctrlM1, [3], [6]⟩
+    let r2 := stepKeep cfg r1.1 ⟨ctrlM3 cl.Ab cl.M, [], []⟩
+    let r3 := stepKeep cfg r2.1 m5
+    let unpaired : PS := { r3.1 with paired := [] }
+    let r4 := stepKeep cfg unpaired m5
+    r3.1.paired = [([1], [8], 1)] ∧ isO2 r4.2.1 = true ∧ r4.1.paired = [([1], [8], 1)] := by
+  decide +kernel
 
 /-- One step, any state: how the code's own record (`verified` of the current verifier) evolves.
     It is set only by a good M3, cleared by every served M1, and M6 / a pairing need it. -/
@@ -112,6 +143,23 @@ theorem C01_m5_needs_m3 (cfg : Cfg) (ps : PS) (r : Req) (h : verifiedNow ps = fa
   · by_cases hp : (step cfg ps r).1.paired = ps.paired
     · exact hp
     · have := hs (Or.inr hp); rw [h] at this; exact absurd this (by decide)
+
+/-- **The exchange is single use**: the step that emits M6 / records the pairing discards the verifier,
+    so from the resulting state no M5 (replayed or new) is accepted until a new M1 and a new good M3 —
+    also after the accessory has been unpaired again. -/
+theorem C01_exchange_single_use (cfg : Cfg) (ps : PS) (r r' : Req) (h : isO2 (step cfg ps r).2.1 = true) :
+    (step cfg ps r).1.verifier = none ∧
+    isO2 (step cfg { (step cfg ps r).1 with paired := [] } r').2.1 = false ∧
+    (step cfg { (step cfg ps r).1 with paired := [] } r').1.paired = [] := by
+  have hv : (step cfg ps r).1.verifier = none := by
+    cases step_shape cfg ps r with
+    | noop hs h1 h2 => rw [h2] at h; exact absurd h (by decide)
+    | m1 srv hs hv hm h1 h2 => rw [h2] at h; exact absurd h (by decide)
+    | m3 srv hs hv h1 h2 => rw [h2] at h; exact absurd h (by decide)
+    | m5 hver hs => exact hs
+  have hn : verifiedNow { (step cfg ps r).1 with paired := [] } = false := by simp [verifiedNow, hv]
+  have := C01_m5_needs_m3 cfg { (step cfg ps r).1 with paired := [] } r' hn
+  exact ⟨hv, this.1, this.2⟩
 
 /-- **The shipped code is forgeable** (closed-form schema, any hash, code, salt, `b > 0`, any `k`):
     after M1, the M3 with `A = k·N` and the proof computed from PUBLIC data only (salt and `B` from M2,
@@ -189,6 +237,23 @@ theorem C01_symbolic_legacy_attack :
   PairSetupSym.sym_legacy_attack
 
 /-! ### non-vacuity -/
+
+/-- pair, unpair, replayed M5 (and replayed M3 + M5) on the repaired handler: refused, nobody is paired;
+    the trace has the legitimate O2/O3 with the ghost set and nothing afterwards -/
+example :
+    let cfg : Cfg := { G := { N := 23, g := 5, nLen := 8 }, c := toyCrypto }
+    let ps0 : PS := { pincode := [2], mac := [9], ltpk := [7], paired := [], verifier := none }
+    let srv := Srp.mk cfg.c.H cfg.G SRP_USER ps0.pincode [3] 6
+    let cl := client cfg.c.H cfg.G SRP_USER ps0.pincode [3] srv.Bb 4
+    let csig := [8] ++ (cfg.c.hkdf cl.K P4_SALT P4_INFO ++ [1] ++ [8])
+    let m3 : Req := ⟨ctrlM3 cl.Ab cl.M, [], []⟩
+    let m5 : Req := ⟨ctrlM5 cfg.c cl.K (ctrlSub [1] [8] csig), [], []⟩
+    let evs : List Ev := [.req ⟨ctrlM1, [3], [6]⟩, .req m3, .req m5, .unpair, .req m5, .connLost, .req m3, .req m5]
+    ((traceEv cfg ps0 false evs).map fun e => (e.out, e.demo, e.post.paired.length))
+      = [(.m2 [3] srv.Bb, false, 0), (.m4 cl.HAMK, false, 0), ((runEv cfg ps0 evs).2.getD 2 .silent, true, 1),
+         (.m6AuthErr, false, 0), (.err500, false, 0), (.m6AuthErr, false, 0)]
+    ∧ (runEv cfg ps0 evs).1.paired = [] := by
+  decide +kernel
 
 /-- the premises of `C01_symbolic` hold for the attacker that knows all public values -/
 example : (∀ t, PairSetupSym.init.kn t → PairSetupSym.safe t) ∧ PairSetupSym.init.verified = false ∧
